@@ -13,7 +13,10 @@ BLE_OPS = {"channel=": [2, 26, 80, 50], "pa_level=": [0, -6, -12, -18, (0, False
            "set_payload_length": [(24, 0), (10, 3)], "interrupt_config": rfapi.OPS["interrupt_config"],
            "arc=": [0, 3], "ard=": [250, 1000], "power=": [True, False], "listen=": [True, False],
            "auto_ack=": [True], "dynamic_payloads=": [True], "crc=": [2], "data_rate=": [2], "address_length=": [5],
-           "open_rx_pipe": [(1, b"AAAAA")], "open_tx_pipe": [b"AAAAA"], "ack=": [True]}
+           "open_rx_pipe": [(1, b"AAAAA")], "open_tx_pipe": [b"AAAAA"], "ack=": [True],
+           # calls FakeBLE inherits but refuses (its setters raise NotImplementedError): nothing may stick in the cached view
+           "set_auto_ack": [(True, 0), (True, 3)], "set_dynamic_payloads": [(True, 1), (True, None)], "load_ack": [(3, 1)],
+           "set_auto_retries": [(1000, 5)]}
 NET_OPS = {"channel=": [0, 76, 90, 125], "pa_level=": [0, -6, -12, -18, (0, False), (-12, True)], "data_rate=": [1, 2, 250],
            "crc=": [0, 1, 2], "power=": [True, False], "set_auto_retries": rfapi.OPS["set_auto_retries"],
            "interrupt_config": rfapi.OPS["interrupt_config"], "set_dynamic_payloads": [(True, None), (False, 2), (True, 2)],
